@@ -17,6 +17,16 @@ OUTSIDE = ['conformance to Apple\'s format', 'for-all over plist payload content
 EXPLORE_OPTS = {'max_paths': 40000, 'max_seconds': 900}
 
 KEXT1, KEXT2 = {'Binaries': [{'name': 'k1'}]}, {'Binaries': [{'name': 'k2'}, {'name': 'k3'}]}
+KEXT3 = {'Binaries': [{'name': 'k2'}, {'name': 'k4'}, {'name': 'k4'}]}       # repeats an entry of KEXT2 and one of its own
+
+
+def _dm(width, precision):
+    return {'pc': 1, 's': 0, 'seg': [{'lp': 1, 'p': {'rs': 7, 't': [6], 'tn': 5, 'ty': 6, 'w': width, 'p': precision},
+                                      'a': {'a': 3, 'p': 1, 'c': 2, 'or': 4}}]}
+
+
+# two records whose message uses the same format specifier with different run-time width / precision
+LOGS3 = {'Events': [V.mandatory(4, 0x504, dm=_dm(0, 5)), V.mandatory(1, 0x504, dm=_dm(2, 11))]}
 DYLD1, DYLD2 = {'Binaries': [{'p': 'a'}], 'Extra': 1}, {'Binaries': [{'p': 'b'}]}
 PROCS = {'Processes': [{'pid': 1, 'name': 'launchd'}]}
 IMAGES = {'Images': [{'uuid': 'X'}]}
@@ -25,7 +35,7 @@ BLOCKS = {
     'kext1': ('kexts', KEXT1), 'kext2': ('kexts', KEXT2), 'dyld1': ('dyld', DYLD1), 'dyld2': ('dyld', DYLD2),
     'procs': ('processes', PROCS), 'images': ('images', IMAGES), 'strings': ('strings', V.sample_strings()),
     'logs': ('logs', V.sample_logs()), 'logs2': ('logs', {'Events': [V.mandatory(4, 0x503, p=0, pid=70)]}),
-    'logs0': ('logs', {'Events': []}),
+    'logs0': ('logs', {'Events': []}), 'logs3': ('logs', LOGS3), 'kext3': ('kexts', KEXT3),
 }
 
 
@@ -54,6 +64,7 @@ def splits(m, kmax=3):
 SEQS_QUICK = [
     [], ['strings', 'logs'], ['codes1', 'kext1', 'codes2', 'kext2'], ['dyld1', 'dyld2', 'procs', 'images'],
     ['logs', 'strings', 'logs2'], ['images', 'strings', 'logs0', 'codes1'],
+    ['strings', 'logs3', 'logs'], ['kext2', 'kext3', 'kext1', 'kext3'],
 ]
 
 
@@ -214,6 +225,10 @@ def run(ctx, st):
                       lg.process == (strings[raw['p']] if 'p' in raw else '') and
                       lg.process_identifier == raw.get('pid', 0) and
                       lg.process_image_path == (strings[raw['pip']] if 'pip' in raw else ''), repr(lg)[:200])
+            if 'dm' in raw:
+                from oracle import oslog as O
+                ctx.check(L + '/log-message-segments', lg.decomposed_message == O.decode_dm(raw['dm'], strings),
+                          repr(lg.decomposed_message)[:300])
             if 'p' in raw and raw['tid']:
                 exp_tp[raw['tid']] = raw.get('pid', 0)
                 exp_pn[raw.get('pid', 0)] = strings[raw['p']]
